@@ -39,6 +39,11 @@ func checkDiag3(tris []kit.Tri, o *kit.Obs) (*diag3, *model3d.Mesh, error) {
 	if got := m.NeedsRepair(); got != d.NeedsRepair {
 		return d, m, fmt.Errorf("NeedsRepair() = %v, but by definition (some edge not shared by exactly two triangles) it is %v (max edge use %d, %d boundary edges, %d faces)", got, d.NeedsRepair, d.MaxEdgeUse, d.Boundary, d.F)
 	}
+	// ... and the same answer from a mesh object that has been queried before (its vertex index exists then)
+	m.VertexSlice()
+	if got := m.NeedsRepair(); got != d.NeedsRepair {
+		return d, m, fmt.Errorf("NeedsRepair() = %v after an earlier query on the same mesh object (it was %v before), by definition it is %v (max edge use %d, %d boundary edges, %d faces)", got, d.NeedsRepair, d.NeedsRepair, d.MaxEdgeUse, d.Boundary, d.F)
+	}
 	// singular vertices, compared as sets
 	wantSing := d.Singular
 	if d.TwinFaces {
